@@ -101,7 +101,7 @@ pub fn plan(prop: &str) -> Option<Plan> {
         "C07" => ("exploration", vec![p("Q7", 60_000, 1_500_000)], SEQ_RULE),
         "C08" => (
             "exploration",
-            vec![p("Q6", 50_000, 1_500_000), p("QB", 50_000, 500_000)],
+            vec![p("Q6", 50_000, 1_500_000), p("QB", 50_000, 500_000), p("QC", 20_000, 100_000)],
             SEQ_RULE,
         ),
         "C09" => (
@@ -116,6 +116,7 @@ pub fn plan(prop: &str) -> Option<Plan> {
                 p("K4", 3000, 200_000),
                 p("K5", 3000, 200_000),
                 p("K7", 3000, 200_000),
+                p("K9", 6000, 300_000),
             ]);
             ("exploration", v, SEQ_RULE)
         }
